@@ -76,6 +76,8 @@ func init() {
 				Bounds: "shapes over id/port/bytes leaves (single, range, open ranges, list) with symbolic 20-bit literals; stream attributes symbolic"},
 			{Pkg: qp, Func: "ZZ_C03_Mixed", Solver: "cvc5", Quick: tier(map[string]int{"mixfams": 6, "mixshapes": 6, "events": 2, "numforms": 2, "hostkeys": 1, "hostmasks": 2, "timeforms": 1}), Thorough: tier(map[string]int{"mixfams": 9, "mixshapes": 8, "events": 2, "numforms": 3, "hostkeys": 3, "hostmasks": 3}),
 				Bounds: "one leaf of each kind (number, tag, data, host/mask, ftime/ltime/time with relative durations) against each other"},
+			{Pkg: qp, Func: "ZZ_C03_Time", Solver: "cvc5", Quick: tier(map[string]int{"timeshapes": 4, "timekeys": 2}), Thorough: tier(map[string]int{"timeshapes": 8, "timekeys": 3}),
+				Bounds: "shapes over ftime/ltime/time leaves: relative bounds with symbolic 44-bit nanosecond durations, absolute bounds from two concrete sample dates"},
 			{Pkg: qp, Func: "ZZ_C03_Proto", Solver: "cvc5", Quick: tier(map[string]int{"protoshapes": 4}), Thorough: tier(map[string]int{"protoshapes": 8})},
 		},
 		Assumptions: []string{
